@@ -277,14 +277,24 @@ theorem expression_shape {cmd ex : List Char} (h : Gen.expression cmd = some ex)
   · simp at h
   · rename_i l0 rest _
     cases h
-    refine ⟨Gen.assureNewlineC l0 ++ rest.flatMap (fun l => ['>', ' '] ++ Gen.assureNewlineC l), by simp, ?_⟩
-    have h1 : EndsNl (rest.flatMap (fun l => ['>', ' '] ++ Gen.assureNewlineC l)) :=
-      endsNl_flatMap _ _ (fun x _ => Or.inr (by rw [List.getLast?_append, assureNewlineC_last]; rfl))
+    refine ⟨l0 ++ ['\n'] ++ rest.flatMap (fun l => ['>', ' '] ++ l ++ ['\n']), by simp, ?_⟩
+    have h1 : EndsNl (rest.flatMap (fun l => ['>', ' '] ++ l ++ ['\n'])) :=
+      endsNl_flatMap _ _ (fun x _ => Or.inr (by rw [List.getLast?_append]; rfl))
     rcases h1 with h1 | h1
-    · show (['$', ' '] ++ Gen.assureNewlineC l0 ++ _).getLast? = _
-      rw [h1, List.append_nil, List.getLast?_append, assureNewlineC_last]; rfl
-    · show (['$', ' '] ++ Gen.assureNewlineC l0 ++ _).getLast? = _
-      rw [List.getLast?_append, h1]; rfl
+    · rw [h1, List.append_nil, List.getLast?_append]; rfl
+    · rw [List.getLast?_append, h1]; rfl
+
+theorem endsNl_exitCodeLine (c : Int) : EndsNl (Gen.exitCodeLine c) := by
+  right
+  have : Gen.exitCodeLine c = (['['] ++ Gen.showInt c ++ [']']) ++ ['\n'] := by simp [Gen.exitCodeLine]
+  rw [this, List.getLast?_append]; rfl
+
+theorem endsNl_withExitCode (k : Bool) (body : List Char) (c : Int) (h : EndsNl body) :
+    EndsNl (Gen.withExitCode k body c) := by
+  unfold Gen.withExitCode
+  split
+  · exact endsNl_append (endsNl_exitCodeLine c) h
+  · exact endsNl_append h (endsNl_exitCodeOpt c)
 
 /-- the first line `str::lines()` reads starts with the first character of the text -/
 theorem splitLinesAux_head (c : Char) (hc : c ≠ '\r') :
@@ -354,8 +364,7 @@ theorem generateTestcaseUpd_genOK {m : Esc.Mode} {isOther : Char → Bool} {cmd 
     | ok =>
       simp only at h
       cases h
-      rw [List.append_assoc]
-      exact key _ (endsNl_append (endsNl_flatMap _ _ (fun x _ => endsNl_assureNewlineC x)) (endsNl_exitCodeOpt code))
+      exact key _ (endsNl_withExitCode _ _ _ (endsNl_flatMap _ _ (fun x _ => endsNl_assureNewlineC x)))
     | malformed d =>
       simp only at h
       cases hb : Gen.diffBody m isOther origs lines d with
@@ -363,8 +372,7 @@ theorem generateTestcaseUpd_genOK {m : Esc.Mode} {isOther : Char → Bool} {cmd 
       | some b =>
         simp only [hb, Option.map_some] at h
         cases h
-        rw [List.append_assoc]
-        exact key _ (endsNl_append (endsNl_diffBody m isOther origs lines d b hb) (endsNl_exitCodeOpt code))
+        exact key _ (endsNl_withExitCode _ _ _ (endsNl_diffBody m isOther origs lines d b hb))
     | invalidExit actual =>
       simp only at h
       cases hb : Gen.expectationLines m isOther lines with
@@ -758,9 +766,13 @@ theorem outcome_rejudged {isOther : Char → Bool} (hC : AsciiContract isOther) 
       (tbl : List (List Bool)) (hm : matrix exps (Newline.splitAtNewline (validateStream u.test.cfg recorded)) = some tbl)
       (sl : List Slot) (hspec : SlotsSpec (cell tbl) (Newline.splitAtNewline (validateStream u.test.cfg recorded)).length sl)
       (body : List Char) (hbody : slotsText .unicode isOther origs (Newline.splitAtNewline (validateStream u.test.cfg recorded)) sl = some body)
-      (ex : List Char) (hex : Gen.expression u.cmd = some ex) (hg : g = ex ++ body ++ Gen.exitCodeOpt r.code),
+      (ex : List Char) (hex : Gen.expression u.cmd = some ex)
+      (hg : g = ex ++ Gen.withExitCode (headKept sl) body r.code),
       ∃ u', RewrittenAs u u' r.code ∧ passText u' = some g ∧ Passes u' r := by
     intro origs exps hcomp' hq' tbl hm sl hspec body hbody ex hex hg
+    -- a generated first line does not start with `> `: the placement is the one of a passing test
+    rw [withExitCode_headKept_true grammarParams_std .unicode isOther (fun _ => hC) origs _
+      (Newline.splitAtNewline_isLine _) sl body r.code hbody] at hg
     obtain ⟨newOrigs, newExps, p1, p2, _, d', hd', hnd⟩ :=
       written_list_passes hC origs exps hcomp' hq' _ tbl hm sl hspec
     have hb := slotsText_of_pairs hC origs _ sl newOrigs p1
@@ -819,7 +831,9 @@ theorem outcome_rejudged {isOther : Char → Bool} (hC : AsciiContract isOther) 
       | some e =>
         simp only [he, Option.map_some, Option.some.injEq] at hgen
         generalize hls : Newline.splitAtNewline (validateStream u.test.cfg recorded) = lines at *
-        refine core [] [] .nil (by simp) [] (by simp [matrix]) ((rangeFrom 0 lines.length).map .gen) ?_ e ?_ ex hex hgen.symm
+        have hgen' : g = ex ++ Gen.withExitCode (headKept ((rangeFrom 0 lines.length).map .gen)) e r.code := by
+          rw [headKept_gen, withExitCode_false, ← List.append_assoc]; exact hgen.symm
+        refine core [] [] .nil (by simp) [] (by simp [matrix]) ((rangeFrom 0 lines.length).map .gen) ?_ e ?_ ex hex hgen'
         · refine ⟨by simp [rangeFrom], ?_⟩
           intro k hk
           right
@@ -830,7 +844,7 @@ theorem outcome_rejudged {isOther : Char → Bool} (hC : AsciiContract isOther) 
     | malformed d =>
       simp only at hgen
       have hlines : genLines u.test.cfg recorded (.malformed d) = Newline.splitAtNewline (validateStream u.test.cfg recorded) := rfl
-      rw [hlines, diffBody_eq_slots] at hgen
+      rw [hlines, diffBody_eq_slots, firstKept_slots] at hgen
       cases hb : slotsText .unicode isOther u.origs (Newline.splitAtNewline (validateStream u.test.cfg recorded)) (slots d) with
       | none => simp [hb] at hgen
       | some body =>
